@@ -27,7 +27,7 @@ func init() {
 			"NOT decided: numerical agreement with the Prometheus engine (window selection, extrapolation, staleness, label sets), which quantifies over sample values.",
 		Assumptions: commonAssumptions,
 		Technique:   "static analysis: registry/table agreement from the typed AST (emitted names ⊆ registered names)",
-		Rules:       "C18.R1 R2 R3 R4",
+		Rules:       "C18.R1 R2 R3 R4 R5 R6",
 	}
 }
 
@@ -790,6 +790,89 @@ func c18(c *an.Ctx) {
 	c18counterOnlyClamp(c)
 	c18kernelFlags(c)
 	c18operatorTables(c)
+	c18staleFilter(c)
+	mergeIdiom(c, "C18.R5", "grouping / matching keys of PromQL (by, without, on, ignoring) are built by merging the sorted label list with the sorted name list: the smaller side's cursor advances", map[string]int{
+		"engine/index/tsi:MakeGroupTagsKeyByWithoutDims":                    1,
+		"engine/index/tsi:MakeGroupTagsKeyByDims":                           1,
+		"lib/util/lifted/vm/protoparser/influx:MakeGroupTagsKey":            1,
+		"engine/executor:ChunkTags.encodeTagsWithoutDims":                   1,
+		"engine/executor:BinOpTransform.computeMatchTags":                   2,
+		"lib/util/lifted/prometheus/model/labels:Labels.HashForLabels":      1,
+		"lib/util/lifted/prometheus/model/labels:Labels.HashWithoutLabels":  1,
+		"lib/util/lifted/prometheus/model/labels:Labels.BytesWithLabels":    1,
+		"lib/util/lifted/prometheus/model/labels:Labels.BytesWithoutLabels": 1,
+	}, "a label the series does not carry (or carries in between) must be stepped over, otherwise later labels are grouped wrongly")
+}
+
+// c18staleFilter — C18.R6.  Before a range-vector function sees a record, FilterRangeNANPoint
+// removes Prometheus's staleness markers and must keep every real sample.  Structural part:
+// the function has a loop that tests IsStaleNaN on the rows and is never left early (no break,
+// no return) — a filter that stops looking at the first/last marker keeps or drops the samples
+// between two markers wholesale.
+func c18staleFilter(c *an.Ctx) {
+	r := c.Rule("C18.R6", "K-LOOPSELECT", "engine:FilterRangeNANPoint examines every row for a staleness marker (a loop testing IsStaleNaN that is never left early)")
+	f := fn(r, "engine:FilterRangeNANPoint")
+	if f == nil {
+		return
+	}
+	loops, full := 0, 0
+	ast.Inspect(f.Body, func(m ast.Node) bool {
+		var body *ast.BlockStmt
+		switch x := m.(type) {
+		case *ast.ForStmt:
+			body = x.Body
+		case *ast.RangeStmt:
+			body = x.Body
+		default:
+			return true
+		}
+		tests := false
+		ast.Inspect(body, func(k ast.Node) bool {
+			if ce, ok := k.(*ast.CallExpr); ok {
+				if cal := an.Callee(f.Info, ce); cal != nil && cal.Name() == "IsStaleNaN" {
+					tests = true
+				}
+			}
+			return true
+		})
+		if !tests {
+			return true
+		}
+		loops++
+		early := false
+		var walk func(n ast.Node, depth int)
+		walk = func(n ast.Node, depth int) {
+			ast.Inspect(n, func(k ast.Node) bool {
+				switch y := k.(type) {
+				case *ast.FuncLit:
+					return false
+				case *ast.ReturnStmt:
+					early = true
+				case *ast.BranchStmt:
+					if (y.Tok == token.BREAK && (depth == 0 || y.Label != nil)) || y.Tok == token.GOTO {
+						early = true
+					}
+				case *ast.ForStmt, *ast.RangeStmt, *ast.SwitchStmt, *ast.TypeSwitchStmt, *ast.SelectStmt:
+					if k != n {
+						walk(k, depth+1)
+						return false
+					}
+				}
+				return true
+			})
+		}
+		walk(body, 0)
+		if !early {
+			full++
+		}
+		return true
+	})
+	r.AddSites(loops)
+	if loops == 0 {
+		r.Fail(f.Name+": no marker test", c.P.Pos(f.Body.Pos()), "FilterRangeNANPoint no longer tests rows with IsStaleNaN inside a loop")
+	} else if full == 0 {
+		r.Fail(f.Name+": every marker loop left early", c.P.Pos(f.Body.Pos()), "each of the %d loop(s) that test IsStaleNaN is left by a break or return: no loop examines every row, so samples between two separated staleness markers are kept or dropped wholesale", loops)
+	}
 }
 
 // c18operatorTables — C18.R4.  The transpiler maps a PromQL binary operator to the InfluxQL token
